@@ -116,6 +116,9 @@ def universe(tier, seed, shard, nshards):
                             if psi is not None and oracles.psi_degenerate(psi, r, c):
                                 continue
                             yield 'U2-options', {'s1': s1, 's2': s2, 'window': w, 'psi': psi, 'max_length_diff': mld}
+                for w in (None, 1):
+                    # the 0 encodings of 'option off' (penalty, psi) must behave like None
+                    yield 'U2-options', {'s1': s1, 's2': s2, 'window': w, 'penalty': 0, 'psi': 0}
                 for w in (None, 1, 2, 3):
                     for pen in (None, 2, 0.25):
                         for ms in (None, 1.2, 3):
